@@ -165,10 +165,10 @@ struct TxGen<'g, 'a> {
 }
 
 const GOOD_KEYS: [&str; 8] = ["action", "k", "x_", "é", " a ", "method", "contract_address", "a._b"];
-const BAD_KEYS: [&str; 11] = ["", " ", "_x", " _x", "__", "\t", "\u{00a0}", "\u{3000}_a", "_contract_address", " _contract_address ", "_"];
+const BAD_KEYS: [&str; 14] = ["", " ", "_x", " _x", "__", "\t", "\u{00a0}", "\u{3000}_a", "_contract_address", " _contract_address ", "_", "\u{b}", "\u{b}_x", "\u{85}\u{2028}"];
 const EDGE_KEYS: [&str; 6] = ["x_", " a ", "é", "a", "a_b", "\u{2003}b"];
 const GOOD_TYPES: [&str; 10] = ["ev", "transfer", "ab", " ab ", "é", "wasm", "wasm-x", "wasm-wasm", "execute", "\ttransfer "];
-const BAD_TYPES: [&str; 6] = ["", " ", "a", " a ", "\t\n", "x "];
+const BAD_TYPES: [&str; 8] = ["", " ", "a", " a ", "\t\n", "x ", "\u{b}x", "\u{2029}y\u{b}"];
 
 impl TxGen<'_, '_> {
     fn key(&mut self) -> Vec<u8> {
@@ -228,7 +228,7 @@ impl TxGen<'_, '_> {
 
     fn cref(&mut self) -> CRef {
         if self.g.chance(1, 24) {
-            CRef(if self.g.chance(1, 3) { 254 } else { 255 })
+            CRef(match self.g.below(4) { 0 => 254, 1 => 253, _ => 255 })
         } else {
             CRef(self.g.below(6) as u8)
         }
